@@ -20,6 +20,9 @@ func init() {
 
 func runC11(p *core.Program, r *core.Report) {
 	f := p.FuncByName("pkg/gengo/internal", "(*Dumper).TypeLit")
+	if f != nil {
+		f = flatten(p, f) // arms moved into private helpers are seen in place
+	}
 	if f == nil {
 		r.Anchor("R1", "pkg/gengo/internal.(*Dumper).TypeLit")
 		return
@@ -133,13 +136,16 @@ func runC11(p *core.Program, r *core.Report) {
 	}
 	// struct arm
 	if cc := armOf["struct"]; cc != nil {
-		var loop *ast.ForStmt
+		var loop *struct{ Body *ast.BlockStmt }
+		var loopNode ast.Node
 		ast.Inspect(cc, func(n ast.Node) bool {
-			if fs, ok := n.(*ast.ForStmt); ok && loop == nil {
-				loop = fs
+			if _, _, body, _, ok := countedLoop(info, n); ok && loop == nil {
+				loop = &struct{ Body *ast.BlockStmt }{body}
+				loopNode = n
 			}
 			return true
 		})
+		_ = loopNode
 		good := loop != nil
 		why := "no field loop"
 		if good {
